@@ -383,7 +383,7 @@ def placement_rules(ctx):
     ev = Evaluator(repo, inline_depth=0)
     fi = repo.func(IMG, "EnvelopeStorage.as_intelhex")
     fq = ctx.fq(fi)
-    generic.loops_run_to_end(ctx, "C07-D2e every layout entry is visited", fi, {"frombytes", "merge", "puts", "ljust"}, "layout entries (slots)")
+    generic.loops_run_to_end(ctx, "C07-D2e every layout entry is visited", fi, {"frombytes", "merge", "puts", "ljust"}, "layout entries (slots)", floor=0)
     outs = [o for o in ev.outcomes(fi) if o.kind == "return"]
     R.rule("C07-D2b placement", 5, "per layout entry: same entry's role selects the bytes, its size pads with 0xFF, its offset places, its domain filters")
     lay = App("attr:_LAYOUT", (SELF,))
